@@ -28,7 +28,16 @@ func propC08(w *World, r *Report) {
 	for _, a := range boundsAssumptions {
 		r.Assumes(a)
 	}
-	RunLosslessFor(w, r, "C08", newBoundsRun(w))
+	br08 := newBoundsRun(w)
+	RunLosslessFor(w, r, "C08", br08)
+	var succ []*ssaFn
+	for _, f := range enc {
+		if !strings.Contains(fnPkgPath(f), "/builder") {
+			succ = append(succ, f)
+		}
+	}
+	RunNarrowSucc(w, r, succ, br08)
+	RunNarrowSuccControl(r)
 	checkTagPad(w, r)
 	r.Floor("deadguard", 10)
 	r.Floor("twinformula", 1)
